@@ -14,9 +14,12 @@ import (
 // walkCases adds the router-walk cases: paths of the real combinator over
 // beaconed segments (real extender) are walked hop by hop through real border
 // routers (netgen: 1-3 routers per AS, sibling links); for every segment slice
-// of every delivered walk the SegIDs the routers verified the hop fields with
-// are compared with SegID.walk and with the construction-time values
-// (SegID.walk_ok) computed from the beaconed segment the slice was cut from.
+// of every walk the SegIDs the routers verified the hop fields with are compared
+// with SegID.walk and with the construction-time values (SegID.walk_ok) computed
+// from the beaconed segment the slice was cut from. A walk of such an honest,
+// unexpired path that is NOT delivered is a violation (a SegID out of step makes
+// the next MAC check drop the packet); what was observed up to the drop is still
+// emitted. The buckets of requiredBuckets must all be filled (runner error otherwise).
 //
 // The SegID a router used for a hop field is read off the packets: in
 // construction direction the value the info field carried on arrival (the router
